@@ -86,11 +86,11 @@ let () =
       let b = Buffer.create 4096 in
       for a = 0 to l do for bb = 0 to c do for cc = 0 to l do for d = 0 to c do
         let r = { sl = n_of_int a; sc = n_of_int bb; el = n_of_int cc; ec = n_of_int d } in
-        Buffer.add_char b (if render_ok sl true lines r then '1' else '0')
+        Buffer.add_char b (if render_ok_fast sl true lines r then '1' else '0')
       done done done done;
       print_string "G "; print_endline (Buffer.contents b)
     | ["R"; sf; lens; slack; a; bb; cc; d] ->
       let r = { sl = n_of_string a; sc = n_of_string bb; el = n_of_string cc; ec = n_of_string d } in
-      Printf.printf "R %s %d\n" (b2s (render_ok (parse_slack slack) (sf = "1") (parse_lens lens) r))
+      Printf.printf "R %s %d\n" (b2s (render_ok_fast (parse_slack slack) (sf = "1") (parse_lens lens) r))
         (match excerpt_lines r with N0 -> 0 | Npos _ as x -> (try int_of_n x with _ -> -1))
     | _ -> ()) (read_lines stdin)
